@@ -193,10 +193,16 @@ class Fresh:
         object.__setattr__(self, "_hub", hub)
         object.__setattr__(self, "_arr", arr)
 
+    _count = [0]
+
     def new(self):
         hub, arr = self._hub, self._arr
+        fd = hub.fd
+        Fresh._count[0] += 1
+        # the subclasses inherit every operation: cycle through them
+        cls = (fd.FlodymArray, fd.Parameter, fd.StockArray, fd.FlodymArray)[Fresh._count[0] % 4]
         with hub.pause():
-            return hub.fd.FlodymArray(dims=arr.dims, values=arr.values.copy(order="K"), name=arr.name)
+            return cls(dims=arr.dims, values=arr.values.copy(order="K"), name=arr.name)
 
     def __getattr__(self, name):
         return getattr(self.new(), name)
@@ -236,3 +242,18 @@ class Fresh:
 
     def __abs__(self):
         return abs(self.new())
+
+
+def np_spelled(item, rng, p=0.25):
+    """the same label as a numpy scalar (np.int64 / np.str_ / np.float64): labels compare with =="""
+    if rng.random() >= p:
+        return item
+    if isinstance(item, bool):
+        return item
+    if isinstance(item, int):
+        return np.int64(item)
+    if isinstance(item, float):
+        return np.float64(item)
+    if isinstance(item, str):
+        return np.str_(item)
+    return item
